@@ -498,7 +498,8 @@ class Verifier:
             n += 1
             if n > self.job.max_paths:
                 raise Budget(f"more than {self.job.max_paths} paths")
-            ctx = Ctx(dec, self.timeout_ms)
+            ctx = Ctx(dec, self.job.opts.get("solver_timeout_ms", self.timeout_ms))
+            ctx.fresh_mode = bool(self.job.opts.get("fresh_solver"))
             try:
                 self.run_path(ctx)
             except (PathEnd, Infeasible):
@@ -778,10 +779,15 @@ class Verifier:
             src = ev.payload[0]
             src.state = "running"
             src.pulls += 1
+            if job.opts.get("suspend_at_pull") and job.opts.get("at_suspension"):
+                job.opts["at_suspension"](self, ctx, ev)       # the source may suspend: other tasks run here
             opts = ["item", "end"] + (list(fk) if faults else [])
             c = opts[ctx.choose(len(opts), f"pull {src.name}")]
             if c == "item":
                 v = Opaque(ctx.fresh(Val, f"{src.name}{src.pulls}_"))
+                if job.opts.get("ghost_tee") and "ghost" in self.impl_i.roots:
+                    h = self.impl_i.roots["ghost"]["hist"]
+                    h.seq = z3.Concat(h.to_seq(), z3.Unit(v.t))         # ghost: the sequence of fetched items
                 self.trace.append((f"pull {src.name}", f"item {v.t}"))
                 return ("item", v)
             if c == "end":
@@ -1089,7 +1095,7 @@ class Verifier:
 
     def model_summary(self, ctx):
         """interpretation of the user-object predicates on the symbols of this path (for native replay)"""
-        m = ctx.solver.model()
+        m = ctx.model()
         syms = list(ctx.val_syms) + [v.t for v in self.env.vals.values()]
         names = [str(x) for x in syms]
         ev = lambda f: z3.is_true(m.eval(f, model_completion=True))
@@ -1293,8 +1299,59 @@ class Verifier:
         key = (node_site, frames, srcs, pr.kind, pr.site, psh, self.env.fault_used)
         return key, w
 
+    def retain_check(self, ctx, impl_i):
+        """C20: at a loop head (every iteration of a streaming tool passes one) the tool holds a fixed number of item
+        references in locals, and every container of items obeys the tool's declared window"""
+        job = self.job
+        if "C20" not in job.props or not self.final:
+            return
+        window = job.opts.get("window")
+        scalars = 0
+        seen = set()
+
+        def walk(v, where):
+            nonlocal scalars
+            if id(v) in seen:
+                return
+            if isinstance(v, Opaque):
+                scalars += 1
+                return
+            if isinstance(v, (tuple, list)):
+                for x in v:
+                    walk(x, where)
+                return
+            seen.add(id(v))
+            if isinstance(v, (SList, Builder, STuple)):
+                seq = getattr(v, "seq", None)
+                if seq is None:
+                    for x in (v.items or []):
+                        walk(x, where)
+                    return
+                seqs = list(seq) if isinstance(seq, tuple) else [seq]
+                if job.opts.get("accumulates"):
+                    return
+                for sq in seqs:
+                    bound = window(self) if window is not None else 0
+                    bound = bound.t if isinstance(bound, SInt) else (bound if z3.is_expr(bound) else z3.IntVal(int(bound)))
+                    self.prove(ctx, f"{job.name}/retain/{where}", "retain", z3.Length(sq) <= bound,
+                               detail=f"the item container {where} is not bounded by the tool's window: the number of retained items grows with the stream")
+                return
+            if isinstance(v, Obj):
+                for k, x in v.f.items():
+                    walk(x, f"{where}.{k}")
+            elif isinstance(v, dict):
+                for k, x in v.items():
+                    walk(x, f"{where}[{k}]")
+        for fr in impl_i.frames:
+            for name, v in fr.env.items():
+                walk(v, f"{fr.name}.{name}")
+        self.result.record(f"{job.name}/retain/item-valued-locals<={max(scalars, 1)}", "retain", True)
+        self.result.retain_scalars = max(getattr(self.result, "retain_scalars", 0), scalars)
+
     def cut(self, ctx, ev, impl_i, ref_i):
         site = ev.site
+        if self.mode == "prove":
+            self.retain_check(ctx, impl_i)
         if self.mode == "bounded":
             k = ("impl", site)
             self.loop_counts[k] = self.loop_counts.get(k, 0) + 1
@@ -1309,6 +1366,10 @@ class Verifier:
             _, wa = self.state_key(impl_i, ref_i, site, True)
             for pth, (setter, val) in wa.ints.items():
                 setter(SInt(z3.IntVal(val)))
+            if self.job.opts.get("widen_lists"):
+                for n_, (obj, ln) in wa.lists.items():
+                    if ln > 0:
+                        obj.widen()
         key, w = self.state_key(impl_i, ref_i, site, False)
         if site == (-1, 0) and self.job.opts.get("snapshot") and self.mode == "prove":
             if key in self.snapshots:
@@ -1391,7 +1452,7 @@ class Verifier:
                     if not ctx.valid(f)[0]:
                         bad.add(n)
                 break
-            m = ctx.solver.model()
+            m = ctx.model()
             dropped = False
             for n, f in list(live.items()):
                 try:
@@ -1410,8 +1471,32 @@ class Verifier:
                 break
         return bad
 
+    def check_state_invariant(self, ctx, key, where):
+        """object-level declared invariant of the consumer-loop cut (job.opts['state_invariant']): proved on the
+        current state; returns False if a clause fails"""
+        fn = self.job.opts.get("state_invariant")
+        if fn is None:
+            return True
+        ok = True
+        for name, f in fn(self):
+            ok &= bool(self.prove(ctx, f"{self.job.name}/inv-declared/{where}/{name}", "inv-declared", f,
+                                  detail=f"declared invariant `{name}` does not hold {where}"))
+        return ok
+
+    def assume_state_invariant(self, ctx, key):
+        fn = self.job.opts.get("state_invariant")
+        if fn is None:
+            return
+        for name, f in fn(self):
+            if f is False:
+                raise Infeasible()
+            if f is not True:
+                ctx.assume(f)
+
     def cut_arrive(self, ctx, key, w):
         """arrival at a cut point owned by another path: the invariant must hold here (init), nothing else"""
+        if not self.check_state_invariant(ctx, key, "on arrival at the consumer loop"):
+            raise PathEnd()
         terms = {s.path: s.get() for s in w.slots}
         cands = self.cands.get(key)
         if cands is None:
@@ -1441,6 +1526,8 @@ class Verifier:
             self.result.record(f"{self.job.name}/inv-init/L{key[0][0]}", "inv-init", True)
 
     def cut_enter(self, ctx, key, w, replay=False):
+        if not replay and not self.check_state_invariant(ctx, key, "on arrival at the consumer loop"):
+            raise PathEnd()
         slots = w.slots
         terms = {s.path: s.get() for s in slots}
         # duplicate paths (aliases) keep the first
@@ -1449,7 +1536,7 @@ class Verifier:
             cs = self.gen_candidates(ctx, key, slots, terms)
             # cheap pre-filter: candidates false in one model of the path condition cannot be invariants
             if ctx.check() == z3.sat:
-                m = ctx.solver.model()
+                m = ctx.model()
                 for name in list(cs):
                     if name.startswith("declared:"):
                         continue
@@ -1481,11 +1568,13 @@ class Verifier:
         ctx.havocked = True
         for name, mk in cands.items():
             ctx.assume(mk(new_terms, entry))
+        self.assume_state_invariant(ctx, key)
         self.open_cuts[key] = entry
         if self.final:
             self.result.invariants[f"L{key[0][0]}#{len(self.result.invariants)}"] = sorted(cands)
 
     def cut_step(self, ctx, key, w):
+        self.check_state_invariant(ctx, key, "on arrival at the consumer loop")
         terms = {s.path: s.get() for s in w.slots}
         entry = self.open_cuts[key]
         cands = self.cands[key]
@@ -1510,6 +1599,14 @@ class Verifier:
 
     def gen_candidates(self, ctx, key, slots, terms):
         cs = {}
+        if self.job.opts.get("declared_only"):
+            # the job declares its invariant itself (state_invariant); only frame facts are inferred
+            seen = set()
+            for s_ in slots:
+                if s_.path not in seen and s_.sort != SeqVal:
+                    seen.add(s_.path)
+                    cs[f"{s_.path} unchanged"] = (lambda t, e, p=s_.path: t[p] == e[p])
+            return cs
         paths = []
         seen = set()
         for s in slots:
